@@ -379,6 +379,17 @@ func genLoopDL(r *Rng, idx int, tier string, step func(op string) string) {
 				b += r.Pick(1, ln)
 			}
 		}
+		if !gated && r.Chance(10) {
+			// the peer hangs up right behind this block: if the block completes a piece, the disconnect and the
+			// hash verdict race in the loop; a corrupt sender must be banned in either order
+			o := step(fmt.Sprintf("msg p=%d t=piece i=%d b=%d l=%d data=%s hangup=1", p.k, i, b, ln, data))
+			absorb(peers, o)
+			if strings.HasPrefix(o, "hungup") {
+				p.closed = true
+				p.pending = nil
+			}
+			continue
+		}
 		absorb(peers, step(fmt.Sprintf("msg p=%d t=piece i=%d b=%d l=%d data=%s", p.k, i, b, ln, data)))
 		if gated && !p.closed && r.Chance(25) {
 			// the peer hangs up while the piece it has just completed may still be waiting for its hash verdict
